@@ -83,7 +83,10 @@ def variant(base, step_i, client, plan, tag, rng, prop):
     s0 = steps[:step_i]
     target = steps[step_i]
     rest = steps[step_i + 1:]
-    feats = set(base["features"]) | {"rollback_or_failed_commit"}
+    feats = set(base["features"])
+    if prop == "C14" or any(x["op"] == "rollback" for x in steps):
+        # (a crashed client is abandoned: no rollback runs in it)
+        feats.add("rollback_or_failed_commit")
     if prop == "C04":
         # the client dies inside the call; whatever it did after is not executed
         rec = [{"op": "plan", "c": client, **plan}, target, {"op": "heal", "c": client}, {"op": "close", "c": client},
